@@ -19,4 +19,8 @@ def bindableEvent (k : Key) : Bool :=
 def UpperHasLower (u : Uni) : Prop :=
   ∀ r, u.isLower r = true → u.toUpper r ≠ r → u.toLower (u.toUpper r) ≠ u.toUpper r
 
+/-- Runes the kernel-evaluated table theorems mention: ASCII (0 included: "no code") and the key codes above the
+    Unicode range. -/
+def inKeyDom (r : Int) : Bool := (decide (0 ≤ r) && decide (r < 128)) || decide (maxRune < r)
+
 end VaxisModel.Spec.KeyEnc
